@@ -3,6 +3,7 @@ package main
 import (
 	"context"
 	"fmt"
+	"io"
 	"math"
 	"os"
 	"path/filepath"
@@ -897,6 +898,30 @@ func c20MixRound(run *common.Run, ch *c20Child, round int, scenario int) (int, s
 			_, err := admin.DeleteTable(ctx, &btapb.DeleteTableRequest{Name: tname})
 			admin.CreateTable(ctx, &btapb.CreateTableRequest{Parent: drive.Parent, TableId: "mx", Table: &btapb.Table{ColumnFamilies: map[string]*btapb.ColumnFamily{"f1": {}, "f2": {}}}})
 			return err
+		})
+		// refill the re-created table, so that the next DeleteTable again meets scans that are in the middle of a
+		// multi-message stream and writers that are queued on the table
+		worker("refill", func(ctx context.Context, data btpb.BigtableClient, _ btapb.BigtableTableAdminClient, n int) error {
+			var es []*btpb.MutateRowsRequest_Entry
+			for i := 0; i < 600; i++ {
+				muts := []model.Mut{{Kind: model.SetCell, Fam: "f1", Qual: "q", TS: 1000, Val: "v"}}
+				if i%2 == 0 {
+					muts = append(muts, model.Mut{Kind: model.SetCell, Fam: "f2", Qual: "big", TS: 1000, Val: gen.BigVal})
+				}
+				es = append(es, &btpb.MutateRowsRequest_Entry{RowKey: []byte(fmt.Sprintf("a%05d", i)), Mutations: drive.MutsToProto(muts)})
+			}
+			st, e := data.MutateRows(ctx, &btpb.MutateRowsRequest{TableName: tname, Entries: es})
+			if e != nil {
+				return e
+			}
+			for {
+				if _, e := st.Recv(); e != nil {
+					if e == io.EOF {
+						return nil
+					}
+					return e
+				}
+			}
 		})
 		worker("token", func(ctx context.Context, _ btpb.BigtableClient, admin btapb.BigtableTableAdminClient, n int) error {
 			_, err := admin.GenerateConsistencyToken(ctx, &btapb.GenerateConsistencyTokenRequest{Name: tname})
